@@ -524,7 +524,9 @@ class Machine:
         cal = parse_callee(text)
         if argtys is None:
             argtys = [self.value_type(a) for a in args]
-        return self.dispatch(cal, args, argtys, destty or parse_type("?"), env or {})
+        if destty is None:
+            destty = cal.self_ty if (cal.trait in ("From", "Default", "Zero", "One") and cal.self_ty is not None) else Ty("other", "?")
+        return self.dispatch(cal, args, argtys, destty, env or {})
 
     # ------------------------------------------------------------ runtime types
     def value_type(self, v):
